@@ -389,6 +389,24 @@ def _check_extend(_):
             g = got[0] if got[0] == "EXC" else {k: v[0] for k, v in got[0].items()}
             if g != exp:
                 out.append(Failure("builtin-extended", {"config": "gcc redefined with rules def,p1 and options -DIMPL", "compiler": name, "argv": argv}, expected=exp, observed=g if g != "EXC" else got[1]))
+    # a user definition of a mode / pass whose name the built-in definition already has replaces it (with a warning)
+    redef = "\n".join(['[[compiler.gcc.modes]]', 'name = "openmp"', 'defines = ["_OPENMP=201511"]', 'include_paths = ["/omp"]', "",
+                       '[[compiler.icx.passes]]', 'name = "sycl-spir64"', 'defines = ["USER_SPIR"]', 'modes = ["sycl"]', "",
+                       '[[compiler.nvcc.passes]]', 'name = "sm_70"', 'defines = ["__CUDA_ARCH__=700", "USER_SM70"]', ""])
+    load(redef, d)
+    cases = [("g++", ["-fopenmp"], {"default": (["_OPENMP=201511"], ["/omp"])}),
+             ("gcc", [], {"default": ([], [])}),
+             ("icpx", ["-fsycl"], {"default": (["SYCL_LANGUAGE_VERSION"], []), "sycl-spir64": (["SYCL_LANGUAGE_VERSION", "USER_SPIR"], [])}),
+             ("icx", ["-fsycl-targets=spir64_gen"], {"default": ([], []), "sycl-spir64_gen": (sorted(SYCL_T["spir64_gen"] + ["SYCL_LANGUAGE_VERSION"]), [])}),
+             ("nvcc", [], {"default": (["__CUDACC__", "__NVCC__"], []), "sm_70": (sorted(["__NVCC__", "__CUDACC__", "__CUDA_ARCH__=700", "USER_SM70"]), [])})]
+    for name, argv, exp in cases:
+        n += 1
+        got = parse(name, argv)
+        g = got[1] if got[0] == "EXC" else {k: (v[0], v[1]) for k, v in got[0].items()}
+        e = {k: (sorted(v[0]), sorted(v[1])) for k, v in exp.items()}
+        if g != e:
+            out.append(Failure("builtin-redefined", {"config": "user .cbi/config redefines gcc mode 'openmp', icx pass 'sycl-spir64', nvcc pass 'sm_70'", "compiler": name, "argv": argv},
+                               expected={k: list(v) for k, v in e.items()}, observed=g if isinstance(g, str) else {k: list(v) for k, v in g.items()}))
     return n, out
 
 
